@@ -681,6 +681,12 @@ class WingSegment:
         self.u_a_cp = self._get_axial_vec(self.cp_span_locs)
         self.u_n_cp = self._get_normal_vec(self.cp_span_locs)
         self.u_s_cp = self._get_span_vec(self.cp_span_locs)
+
+        # The interpolated vectors are neither unit nor mutually orthogonal where the section orientation varies along the span
+        self.u_s_cp /= np.linalg.norm(self.u_s_cp, axis=1, keepdims=True)
+        self.u_a_cp -= np.einsum('ij,ij->i', self.u_a_cp, self.u_s_cp)[:,np.newaxis]*self.u_s_cp
+        self.u_a_cp /= np.linalg.norm(self.u_a_cp, axis=1, keepdims=True)
+        self.u_n_cp = np.cross(self.u_a_cp, self.u_s_cp)
         self.u_a_cp_unswept = self._get_unswept_axial_vec(self.cp_span_locs)
         self.u_n_cp_unswept = self._get_unswept_normal_vec(self.cp_span_locs)
         self.u_s_cp_unswept = self._get_unswept_span_vec(self.cp_span_locs)
